@@ -256,7 +256,7 @@ fn c11_plan_parts(quick: bool) -> Vec<Part> {
                 continue;
             }
             let label = format!("{}-{}", ml, dl);
-            parts.push(Part::Bfs(Box::new(c11_scn(&label, *m, *d, !quick)), lim(if quick { 3 } else { 4 }, 2_000_000, if quick { 8.0 } else { 300.0 })));
+            parts.push(Part::Bfs(Box::new(c11_scn(&label, *m, *d, !quick)), lim(if quick { 5 } else { 5 }, 2_000_000, if quick { 8.0 } else { 300.0 })));
         }
     }
     parts
@@ -433,8 +433,8 @@ pub fn plan(property: &str, quick: bool) -> Plan {
             rule: "E-SEQ BFS: a victim accumulates memberships (creating or joining), ranks, +i/+w, away, operator status, pending invitations in both directions; in every reachable state it ends by QUIT, EOF, EOF after a partial line, an invalid-UTF-8 line, KILL by an operator (also raced against an in-flight line of the victim) while another session may end too; separate scenario with ping_timeout=2/pong_timeout=1 where silent connections time out (alone and several at once); one configuration with a preconfigured channel. Oracle: erase-differential on the whole abstract state (nothing else changes), connection counter = live connections, survivors' ISON/WHOIS/NAMES/WHO no longer show the user, WHOWAS has it, the nick re-registers at once".into(),
             assumptions: vec!["unread output pending at the victim is not modelled (client buffers are always drained)".into()],
             parts: vec![
-                Part::Bfs(Box::new(c06_scn("c06-endings", !quick, false)), lim(if quick { 4 } else { 6 }, 3_000_000, t(30.0, 900.0))),
-                Part::Bfs(Box::new(c06_scn("c06-endings-preconfigured", false, true)), lim(if quick { 3 } else { 5 }, 3_000_000, t(15.0, 600.0))),
+                Part::Bfs(Box::new(c06_scn("c06-endings", !quick, false)), lim(if quick { 6 } else { 7 }, 3_000_000, t(30.0, 900.0))),
+                Part::Bfs(Box::new(c06_scn("c06-endings-preconfigured", false, true)), lim(if quick { 5 } else { 7 }, 3_000_000, t(15.0, 600.0))),
                 Part::Bfs(Box::new(c06_timeout_scn("c06-timeout")), lim(if quick { 6 } else { 8 }, 1_000_000, t(10.0, 300.0))),
             ],
         },
@@ -449,11 +449,11 @@ pub fn plan(property: &str, quick: bool) -> Plan {
             rule: "(a) E-SEQ BFS: 3 users + a fourth that connects/registers/leaves; alphabet MODE +-i, OPER (also repeated), MODE -o/-O/+o/+O, AWAY, NICK, JOIN/PART, QUIT, EOF, KILL; probes LUSERS, ISON, USERHOST in every state; oracle: 251/252/254/255/265/266 equal recounts of the abstract state and the true high-water mark, ISON/USERHOST list exactly the registered queried nicks with operator/away flags, counters equal recounts; (b) max_connections in {1,2,3} (with and without a server password): every pattern of connect, register, wrong password, invalid bytes, QUIT, EOF, KILL up to the bound; never more than max served, (max+1)-th refused, counter = live connections after every step, a slot freed by any ending is served again".into(),
             assumptions: vec![],
             parts: {
-                let mut p = vec![Part::Bfs(Box::new(c19_scn("c19-stats", !quick)), lim(if quick { 4 } else { 5 }, 3_000_000, t(30.0, 900.0)))];
+                let mut p = vec![Part::Bfs(Box::new(c19_scn("c19-stats", !quick)), lim(if quick { 5 } else { 6 }, 3_000_000, t(30.0, 900.0)))];
                 for max in [1usize, 2, 3] {
-                    p.push(Part::Bfs(Box::new(Slots { max, with_password: false }), lim(if quick { 5 } else { 8 }, 2_000_000, t(5.0, 300.0))));
+                    p.push(Part::Bfs(Box::new(Slots { max, with_password: false }), lim(if quick { 7 } else { 10 }, 2_000_000, t(5.0, 300.0))));
                 }
-                p.push(Part::Bfs(Box::new(Slots { max: 2, with_password: true }), lim(if quick { 5 } else { 7 }, 2_000_000, t(5.0, 300.0))));
+                p.push(Part::Bfs(Box::new(Slots { max: 2, with_password: true }), lim(if quick { 7 } else { 9 }, 2_000_000, t(5.0, 300.0))));
                 p
             },
         },
